@@ -42,6 +42,23 @@ def norm_name(name):
     return s
 
 
+def name_variants(nn):
+    """`nn` and `nn` with the module segment nearest to the item dropped: a private function moved into a private helper
+    module (`mod util { pub(super) fn f() }`) is still the function the reviewed tables name."""
+    segs = nn.split("::")
+    out = [nn]
+    k = len(segs) - 1
+    if k >= 1 and segs[k - 1][:1].isupper():
+        k -= 1
+    if k >= 3 and segs[k - 1][:1].islower():
+        out.append("::".join(segs[:k - 1] + segs[k:]))
+    return out
+
+
+def fullmatch_name(pat, nn):
+    return any(re.fullmatch(pat, v) for v in name_variants(nn))
+
+
 class CtPolicy(taint.Policy):
     implicit = False
 
